@@ -386,7 +386,11 @@ class LocationDB(object):
             foreign_names = location_db.get_location_names(foreign_loc_key)
             foreign_offset = location_db.get_location_offset(foreign_loc_key)
             if foreign_names:
-                init_name = list(foreign_names)[0]
+                # Prefer a name already known by this instance, in order to
+                # complete its location instead of creating a colliding one
+                known_names = [name for name in foreign_names
+                               if self.get_name_location(name) is not None]
+                init_name = (known_names or list(foreign_names))[0]
             else:
                 init_name = None
             loc_key = self.add_location(offset=foreign_offset, name=init_name,
